@@ -38,6 +38,8 @@ def class_dict(ctx, cls, attr):
     k, v = ctx.res.lookup_class_attr(cls, attr)
     if v is None:
         return None, None
+    if isinstance(v, ast.Call) and isinstance(v.func, ast.Name) and v.func.id == 'dict' and not v.args and all(k_.arg for k_ in v.keywords):
+        return k, {k_.arg: k_.value for k_ in v.keywords}        # dict(name=value, ...) is the same table
     if not isinstance(v, ast.Dict):
         raise AnalysisError('%s.%s is not a dict literal' % (cls.qualname, attr))
     out = {}
